@@ -78,7 +78,7 @@ def adapt_with_vmap(op, signature=None):
     op = adapter.namedtensor_from_decomposednamedtensor.op(op, classical)
     op = device_stack.namedtensor.op(op)
     op = adapter.namedtensor_calltensorfactory.op(op, expected_type=torch.Tensor)
-    op = adapter.einx_from_namedtensor.op(op, iskwarg=iskwarg, el_op=signature, implicit_output="bijective")
+    op = adapter.einx_from_namedtensor.op(op, iskwarg=iskwarg, el_op=signature, implicit_output="bijective", cse_in_brackets=False)
 
     op = api(op, backend=types.SimpleNamespace(**_get_backend_kwargs()))
     import torch
